@@ -351,7 +351,7 @@ class TcpConn:
         _, _, d, seq, _ = self.pkts[k]
         return (seq - self.isn[d]) % 2 ** 32
 
-    def reschedule(self, rng, dup=0.15, disp=0.25, maxdist=3, repack=0.12):
+    def reschedule(self, rng, dup=0.15, disp=0.25, maxdist=3, repack=0.12, partial=0.0):
         """TCP delivery effects inside a flight (a maximal run of consecutive same-direction segments): exact duplicate
         segments (retransmissions captured twice) and segments displaced by a bounded distance. The first data
         segment of each direction stays the first of its direction (a capture that starts mid-flight is C03's
@@ -412,6 +412,24 @@ class TcpConn:
                         if self.pkts[j][0] <= self.pkts[j - 1][0]:
                             self.pkts[j] = (self.pkts[j - 1][0] + 1,) + tuple(self.pkts[j][1:])
                     k = pos
+            k += 1
+        # partial retransmissions: only the first part of an earlier segment is sent again (a sender that segments anew after its
+        # MSS shrank, or an offloaded segment of which only the head was lost), captured later in the same flight. It brings nothing new.
+        k = 0
+        while partial and k < len(self.pkts) - 1:
+            t0, _, d, seq, pl = self.pkts[k]
+            if len(pl) >= 2 and rng.random() < partial:
+                end = k + 1
+                while end < len(self.pkts) and self.pkts[end][2] == d:
+                    end += 1
+                pos = rng.randrange(k + 1, end + 1)
+                head = pl[:rng.randrange(1, len(pl))]
+                tt = self.pkts[pos - 1][0] + 1
+                self.pkts.insert(pos, (tt, self.frame(d, seq, head), d, seq, head))
+                for j in range(pos + 1, len(self.pkts)):
+                    if self.pkts[j][0] <= self.pkts[j - 1][0]:
+                        self.pkts[j] = (self.pkts[j - 1][0] + 1,) + tuple(self.pkts[j][1:])
+                k = pos
             k += 1
 
     def handshake_frames(self):
